@@ -21,8 +21,9 @@ Tie: T + K.
 The oracle (`check_tree`) is written from the property text and inspects only public attributes of solved units.
 """
 import math
+import os
 
-from ..translate import gen, c06_skeleton, c06_refresh
+from ..translate import gen, pyexpr, c06_skeleton, c06_refresh
 from .. import core, stub
 from . import common  # noqa: F401  (silences the pyroll loggers)
 
@@ -42,7 +43,10 @@ RULE = ("real pass sequences, built from a replayable spec and solved: 1-5 top-l
         "point), 7 % an `entry_point`, 7 % a `velocity` as keyword (60 % of those that had none get 1-4 disk elements), and 22 % "
         "of the cases register 1-4 plug-in hook implementations for the run (exit_point = f x -entry_point, entry_point from "
         "the height change x f, forward slip velocity, `disk_element_count` 1-3 for EVERY unit without an explicit count, "
-        "transport velocity x f, transport dwell added to length / velocity); two corpus layouts of that kind; every unit and disk element of the solved tree is checked by the oracle and the whole "
+        "transport velocity x f, transport dwell added to length / velocity, a duration for every explicit rotator); units "
+        "that usually take no time / have no length are GIVEN one: 45 % of the explicit rotators (14 % per position, also as "
+        "last unit of a flat or nested line) get a `duration` (non-zero or the explicit 0), some a `length` / `velocity`, 8 % of "
+        "the passes without disk elements a `duration` or `length`, transports also `length` 0; three corpus layouts of that kind; every unit and disk element of the solved tree is checked by the oracle and the whole "
         "tree is compared with the Lean hand-over model; 15 % of the sequences (and every corpus layout) are solved a SECOND "
         "time, the same objects, on a changed billet (1-4 of temperature / density / heat capacity / material / length / "
         "strain / t changed, flow stress changed / dropped / added, 0-2 entries removed, 0-2 new entries, size +-1.5 %; in "
@@ -114,8 +118,63 @@ ROTATION_CLASSIFIERS = {"rotated", "edged", "vertical", "mirrored"}
 REUSE_BRANCH_REQUIRED = True
 
 
+# The numeric theorems are about ONE formula per chained quantity (`out t = in t + duration` of `Unit.OutProfile`, ...) and
+# claim it for every unit kind.  That rests on no other class carrying an implementation of its own for that hook: a new
+# implementation on a sub-class (`Rotator.OutProfile.t`, a `CoolingPipe.OutProfile.strain` ...) comes first in the hook's
+# function chain and silently replaces the formula for that unit kind.  So EVERY implementation of these hooks anywhere in
+# pyroll/core is listed (`Gen.C06.chainImpls`), and `C06.chain_hooks_all_translated` / `C06.time_formula_of_every_unit`
+# require each to be a translated formula (or one of the named exceptions that are handled elsewhere).
+CHAIN_HOOKS = ("t", "x", "length", "strain", "duration")
+
+
+def chain_implementations(repo, tie_breaks=None):
+    """[(hook, host class path, function name)] of every hook implementation of a CHAIN_HOOKS hook in any file of
+    <repo>/pyroll/core, sorted"""
+    root = os.path.join(repo, "pyroll", "core")
+    rows = []
+    for dp, dn, fns in os.walk(root):
+        dn.sort()
+        for f in sorted(fns):
+            if not f.endswith(".py"):
+                continue
+            path = os.path.join(dp, f)
+            try:
+                impls = pyexpr.extract_hookimpls(path, module_name=os.path.relpath(path, root))
+            except SyntaxError as ex:
+                if tie_breaks is not None:
+                    tie_breaks.append(f"translator: {os.path.relpath(path, root)} cannot be parsed ({ex})")
+                continue
+            rows += [(i.hook, i.host, i.fn) for i in impls if i.hook in CHAIN_HOOKS]
+    return sorted(rows)
+
+
+def runtime_chain_implementations():
+    """the same list as the package has it at run time: the functions stored in the `Hook` objects of every class of
+    pyroll.core (functions defined in pyroll.*; the harness' own plug-ins are registered only while a case runs)"""
+    from pyroll.core.hooks import Hook
+    rows = []
+    for qn, cls in _runtime_classes().items():
+        for name, h in vars(cls).items():
+            if not isinstance(h, Hook) or name not in CHAIN_HOOKS:
+                continue
+            for store in ("_first_wrappers", "_wrappers", "_last_wrappers", "_first_functions", "_functions", "_last_functions"):
+                for hf in getattr(h, store, []):
+                    fn = hf.function
+                    if getattr(fn, "__module__", "").startswith("pyroll."):
+                        rows.append((name, qn, fn.__name__))
+    return sorted(rows)
+
+
 def translate(ctx):
     extra, info = c06_skeleton.emit(core.REPO, ctx.tie_breaks)
+    chain = chain_implementations(core.REPO, ctx.tie_breaks)
+    ctx.chain_impls = chain
+    extra += ("\n/-- EVERY implementation, in any file of pyroll/core, of a hook the chain theorems are about "
+              + "(" + ", ".join(CHAIN_HOOKS) + "): (hook, host class, function) -/\n")
+    extra += "def chainImpls : List (String × String × String) := [\n  " + ",\n  ".join(
+        f"({pyexpr.lean_str(h)}, {pyexpr.lean_str(c)}, {pyexpr.lean_str(f)})" for (h, c, f) in chain) + "]\n"
+    extra += "\n/-- all hook implementations translated into this module -/\n"
+    extra += "def translated : List Impl := [" + ", ".join(n for (n, _, _) in SELECTION) + "]\n"
     extra += "\n/-- the implementations that are sums over the units of a sequence -/\n"
     extra += "def sumImpls : List (String × Impl) := [" + ", ".join(f'("{n}", {n})' for n in SUMS) + "]\n"
     extra += ("\n/-- driver/props/c06.py `REUSE_BRANCH_REQUIRED`: must `Unit.init_solve` have the hand-over branch for a "
@@ -175,6 +234,11 @@ def build_unit(spec, label):
         if "rotation" in spec:
             kw["rotation"] = spec["rotation"]
         kw.update(spec.get("given", {}))
+        if not spec.get("disks") and ({"duration", "length"} & set(spec.get("given", {}))):
+            # a pass whose duration / length is GIVEN is generated WITHOUT disk elements (explicitly none, also when a
+            # plug-in supplies a count): the roll-pass disk elements bypass a given duration / length, see
+            # ROLL_PASS_DISKS_FOLLOW_GIVEN_REQUIRED
+            kw["disk_element_count"] = 0
         if spec.get("three"):
             if spec["groove"] == "oval":
                 return ThreeRollPass(label=label, roll=roll, gap=2e-3 * s * spec.get("gap", 1.0), **kw)
@@ -190,6 +254,12 @@ def build_unit(spec, label):
     if t == "rotator":
         if spec.get("rotation") is not None:
             kw["rotation"] = spec["rotation"]
+        # a turning device / twist guide that TAKES time or has a length: the values every unit kind accepts, given
+        # explicitly where they usually take the default (Rotator.duration = 0)
+        for k in ("duration", "length", "velocity"):
+            if k in spec:
+                kw[k] = spec[k]
+        kw.pop("disk_element_count", None)
         return Rotator(label=label, **kw)
     if t == "seq":
         return PassSequence([build_unit(u, f"{label}.{i}") for i, u in enumerate(spec["units"])], label=label)
@@ -298,12 +368,19 @@ def _plug_contact_length(f):
     return contact_length
 
 
+def _plug_rotator_duration(d):
+    def duration(self):
+        return d      # turning takes time: every explicit rotator without a duration of its own (the entry rotation of a
+    return duration   # roll pass is created with the explicit duration 0 and keeps it)
+
+
 def _plugin_targets(name):
     """the hooks a plug-in registers on (the most derived classes that carry a core implementation, so that the
     plug-in comes first in the hook's function chain) and its function factory"""
-    from pyroll.core import BaseRollPass, SymmetricRollPass, TwoRollPass, ThreeRollPass, Transport
+    from pyroll.core import BaseRollPass, SymmetricRollPass, TwoRollPass, ThreeRollPass, Transport, Rotator
     from pyroll.core.disk_elements import DiskElementUnit
     return {
+        "rotator_duration": ([Rotator.duration], _plug_rotator_duration),
         "exit_point": ([BaseRollPass.exit_point], _plug_exit_point),
         "entry_point": ([TwoRollPass.entry_point, ThreeRollPass.entry_point], _plug_entry_point),
         "velocity": ([SymmetricRollPass.velocity], _plug_velocity),
@@ -447,6 +524,9 @@ def gen_pass(rng, scale, kinds=None, three=False):
         sp["given"] = gv
         if sp["disks"] == 0 and rng.random() < 0.6:
             sp["disks"] = rng.choice([1, 1, 2, 3, 4])     # what the disk elements read is given: mostly WITH disk elements
+    gt = gen_given_time(rng, scale)
+    if gt and sp["disks"] == 0:
+        sp["given"] = dict(sp.get("given", {}), **gt)
     return sp
 
 
@@ -467,6 +547,18 @@ def gen_given(rng, scale):
     return gv
 
 
+def gen_given_time(rng, scale):
+    """... and the pass' own `duration` / `length` given (a stand with a dwell, a measured contact time): time must advance
+    by THAT duration and the enclosing sequence must add THAT value.  Only for passes without disk elements (the
+    roll-pass disk elements do not follow a given duration / length, see ROLL_PASS_DISKS_FOLLOW_GIVEN_REQUIRED)."""
+    r = rng.random()
+    if r < 0.05:
+        return {"duration": rng.choice([0.1, 0.5, round(rng.uniform(0.01, 2), 4)])}
+    if r < 0.08:
+        return {"length": round(scale * rng.uniform(0.03, 0.08), 5)}
+    return {}
+
+
 PLUGIN_POOL = {
     "exit_point": lambda rng: rng.choice([0.03, 0.05, -0.02, round(rng.uniform(0.01, 0.1), 3)]),
     "entry_point": lambda rng: round(rng.uniform(0.85, 1.2), 3),
@@ -474,6 +566,7 @@ PLUGIN_POOL = {
     "disk_count": lambda rng: rng.choice([1, 1, 2, 3]),
     "transport_velocity": lambda rng: round(rng.uniform(0.8, 1.5), 3),
     "transport_dwell": lambda rng: rng.choice([0.5, 2, round(rng.uniform(0.1, 3), 3)]),
+    "rotator_duration": lambda rng: rng.choice([0.5, 0.2, round(rng.uniform(0.05, 2), 3)]),
 }
 
 
@@ -510,8 +603,27 @@ def gen_transport(rng, after_pass=True):
     elif r < 0.65 or not after_pass:
         t["duration"] = rng.choice([1, 0.5, 2.5, 0, round(rng.uniform(0.1, 5), 3)])
     else:
-        t["length"] = rng.choice([1, 2.0, round(rng.uniform(0.2, 6), 3)])
+        t["length"] = rng.choice([1, 2.0, 0, round(rng.uniform(0.2, 6), 3)])
     return t
+
+
+def gen_rotator(rng, last=False, after_pass=False):
+    """an explicit rotator.  Usually only the angle is written (duration 0 by the core's default); 45 % of them are a
+    turning device / twist guide that TAKES time: `duration` given (non-zero, or the explicit 0 the entry rotation of a roll
+    pass is created with), some with a `length` (with the duration, or alone directly after a roll pass - the velocity then
+    comes with the incoming profile) - every unit kind x explicit duration / length / velocity.  A rotator that ends its
+    sequence has no next roll pass to take the angle from: its angle is given."""
+    rot = {"type": "rotator", "rotation": rng.choice([90, 45, 0, 180] if last else [None, 90, 45, 0])}
+    r = rng.random()
+    if r < 0.45:
+        rot["duration"] = rng.choice([0.5, 0.25, 2, 0, round(rng.uniform(0.05, 4), 3)])
+        if rng.random() < 0.3:
+            rot["length"] = rng.choice([0.5, 0, round(rng.uniform(0.1, 3), 3)])
+        if rng.random() < 0.15:
+            rot["velocity"] = rng.choice([1, round(rng.uniform(0.2, 5), 3)])
+    elif r < 0.55 and after_pass:
+        rot["length"] = rng.choice([0.5, 0, round(rng.uniform(0.1, 3), 3)])
+    return rot
 
 
 def next_pass(rng, st):
@@ -548,8 +660,8 @@ def gen_units(rng, depth, st, want):
     last_type = None
     for i in range(want):
         r = rng.random()
-        if rng.random() < 0.12 and i < want - 1 and not st["three"] and last_type != "rotator":
-            units.append({"type": "rotator", "rotation": rng.choice([None, 90, 45, 0])})
+        if rng.random() < 0.14 and (i < want - 1 or i > 0) and not st["three"] and last_type != "rotator":
+            units.append(gen_rotator(rng, last=i == want - 1, after_pass=last_type == "pass"))
             last_type = "rotator"
             continue
         if depth < 2 and r < 0.22 and want > 1:
@@ -639,7 +751,7 @@ def gen_again(rng, spec_in, model, three, units=None):
                 cand.append([i, "rotational_frequency", rng.choice([0.5, 2, round(rng.uniform(0.3, 3), 3)])])
                 if not (u.get("three") and u["groove"] != "oval"):
                     cand.append([i, "gap*", round(rng.choice([rng.uniform(0.7, 0.9), rng.uniform(1.1, 1.4)]), 3)])
-            elif u["type"] in ("transport", "pipe"):
+            elif u["type"] in ("transport", "pipe", "rotator"):
                 for k in ("duration", "length"):
                     if k in u:
                         cand.append([i, k, rng.choice([0.25, 3, round(rng.uniform(0.1, 6), 3)])])
@@ -748,6 +860,20 @@ CORPUS = [
      "units": [{"type": "seq", "units": [{"type": "pass", "groove": "oval", "scale": 1.0, "three": True, "disks": 0}]},
                {"type": "transport", "duration": 1, "disks": 0},
                {"type": "pass", "groove": "round", "scale": 2.0, "three": True, "disks": 1}]},
+    # units that usually take no time / have no length are GIVEN one: a turning device between transport and pass, a twist
+    # guide with a length inside a nested line behind a cooling pipe, a rotator ending a nested line; a pass with a given
+    # duration (no disk elements); a transport of length 0
+    {"in": {"kind": "round", "size": 30e-3, "length": 1.5, "strain": 0.1, "t": 3.0}, "model": "none",
+     "units": [{"type": "pass", "groove": "oval", "scale": 1.0, "disks": 0, "given": {"duration": 0.2}},
+               {"type": "transport", "duration": 1, "disks": 2},
+               {"type": "rotator", "rotation": 90, "duration": 0.5},
+               {"type": "seq", "units": [{"type": "pass", "groove": "round", "scale": 1.0, "disks": 2, "rotation": False},
+                                         {"type": "pipe", "length": 1.0, "disks": 1},
+                                         {"type": "rotator", "rotation": 45, "duration": 0.25, "length": 0.4},
+                                         {"type": "pass", "groove": "oval", "scale": 0.8, "disks": 0, "rotation": 45},
+                                         {"type": "transport", "length": 0, "disks": 0},
+                                         {"type": "rotator", "rotation": 90, "duration": 0.125}]},
+               {"type": "pass", "groove": "round", "scale": 0.8, "disks": 1, "rotation": False}]},
 ]
 
 
@@ -1730,6 +1856,21 @@ def run(ctx):
     if runtime != [tuple(x) for x in ctx.gen_roots]:
         ctx.tie_breaks.append(f"root hook list at run time {runtime} differs from the one read from pyroll/core/__init__.py")
 
+    # ---- (b') the list of implementations of the chained hooks the translator found in the source files is the one the
+    # package holds at run time (an implementation registered in a way the file scan does not see would escape the
+    # certificate `chain_hooks_all_translated`)
+    gen_chain = getattr(ctx, "chain_impls", None)
+    if gen_chain is None:
+        gen_chain = chain_implementations(core.REPO)
+    rt_chain = runtime_chain_implementations()
+    if sorted(set(rt_chain)) != sorted(set(gen_chain)):
+        ctx.tie_breaks.append("implementations of the chained hooks " + ", ".join(CHAIN_HOOKS) + ": at run time "
+                              f"{sorted(set(rt_chain) - set(gen_chain))} are registered beyond, and "
+                              f"{sorted(set(gen_chain) - set(rt_chain))} are missing from, what the translator read from the "
+                              "source files")
+    else:
+        ctx.count("chain-implementations:run-time-list-agrees", len(gen_chain))
+
     # ---- (c) solved sequences: oracle + hand-over model -------------------------------------------------------------
     SOLVE_LIMIT_S[0] = 30.0 if ctx.tier == "quick" else 120.0
     ctx.reuse_branch = reuse_branch_present(ctx)
@@ -1791,6 +1932,11 @@ def run(ctx):
                     ctx.count("given:" + g + (":with-disks" if u.get("disks") else ""))
                 if u["type"] in ("transport", "pipe"):
                     ctx.count("transport-given:" + "+".join(k for k in ("length", "duration", "velocity") if k in u))
+                    if u.get("length") == 0 or u.get("duration") == 0:
+                        ctx.count("transport-given:zero-" + ("length" if u.get("length") == 0 else "duration"))
+                if u["type"] == "rotator":
+                    ctx.count("rotator-given:" + ("+".join(k + ("=0" if u[k] == 0 else "") for k in ("duration", "length", "velocity")
+                                                           if k in u) or "angle-only"))
                 if u.get("disks"):
                     ctx.count(f"disks:{u['disks']}")
             if len(ctx.samples) < 3:
